@@ -129,6 +129,9 @@ func (gf *BuiltInFunctions) IsZero(i interface{}) bool {
 		case reflect.Float64:
 
 			return val.Float() == 0
+		case reflect.Bool:
+
+			return !val.Bool()
 		default:
 
 			return false
